@@ -572,7 +572,7 @@ func c02Find(c *Ctx, cs *C02Case, r *Rng, out *CaseOut, wantSig string) []c02Fai
 	base := x.exec(canon)
 	hasPtr := nestedPtrFree(cs) != nil
 	if c != nil {
-		c.logf("canon: %s", digestKey(hasPtr, base.Key()))
+		c.logf("canon: %s", digestKey(hasPtr, base))
 	}
 	out.Evals++
 	if base.Panic != "" {
@@ -613,7 +613,7 @@ func c02Find(c *Ctx, cs *C02Case, r *Rng, out *CaseOut, wantSig string) []c02Fai
 		eb, _ := json.Marshal(v.ex)
 		if c != nil {
 			if v.ex.Order != simrt.OrderNative && !v.ex.CLI {
-				c.logf("%s %s: %s", v.dim, eb, digestKey(hasPtr, res.Key()))
+				c.logf("%s %s: %s", v.dim, eb, digestKey(hasPtr, res))
 			}
 			c.count("fault:"+v.dim, 1)
 			c.count("map_iterations_controlled", int64(simrt.MapIterations()))
@@ -633,7 +633,7 @@ func c02Find(c *Ctx, cs *C02Case, r *Rng, out *CaseOut, wantSig string) []c02Fai
 		}
 		if !same {
 			kind := "diverge"
-			if base.Panic == "" && res.Panic == "" && (addrRe.ReplaceAllString(res.Key(), "A") == addrRe.ReplaceAllString(base.Key(), "A") ||
+			if base.Panic == "" && res.Panic == "" && (digestKey(false, res) == digestKey(false, base) ||
 				(!v.ex.CLI && addressOnly(cs, x.cli, res.Key(), base.Key(), v.ex, false))) {
 				kind = "address-in-output"
 			}
@@ -674,11 +674,14 @@ var longHexRun = regexp.MustCompile(`[0-9a-fA-FxX]{5,}`)
 // the top level -- there printed heap addresses (possibly mangled by later filters:
 // upcase, remove_first, replace) differ between processes, so long hex-ish runs are
 // blanked. The oracle itself always compares exact keys.
-func digestKey(hasNestedPtr bool, key string) string {
+func digestKey(hasNestedPtr bool, r Res) string {
+	// (addresses are blanked in the output itself, before a long output is reduced to a digest)
 	if hasNestedPtr {
-		return longHexRun.ReplaceAllString(key, "H")
+		r.Out = longHexRun.ReplaceAllString(r.Out, "H")
+		return longHexRun.ReplaceAllString(r.Key(), "H")
 	}
-	return addrRe.ReplaceAllString(key, "0xADDR")
+	r.Out = addrRe.ReplaceAllString(r.Out, "0xADDR")
+	return addrRe.ReplaceAllString(r.Key(), "0xADDR")
 }
 
 // sameSkeleton: the two strings differ only inside runs of hex-ish characters.
